@@ -778,7 +778,12 @@ enum BoundKind {
     Activity,
 }
 
-fn bound_kind_of(variable: &str, clauses: &[WhereClause]) -> Option<BoundKind> {
+/// Every Core kind some pattern of the block gives the variable, at any depth.
+///
+/// All of them, not the first: `?t CONCEPT {...} UNION { ?t ASSERTION {...} }`
+/// and `NOT { ?t CONCEPT {...} } ?t EVIDENCE {...}` both bind `?t` to a record,
+/// and a guard that stopped at the first typing would wave the rewrite through.
+fn bound_kinds_of(variable: &str, clauses: &[WhereClause], out: &mut Vec<BoundKind>) {
     for clause in clauses {
         let found = match clause {
             WhereClause::Assertion { variable: v, .. } if v == variable => {
@@ -791,39 +796,52 @@ fn bound_kind_of(variable: &str, clauses: &[WhereClause]) -> Option<BoundKind> {
                 variable: Some(v), ..
             } if v == variable => Some(BoundKind::Proposition),
             WhereClause::Not(inner) | WhereClause::Optional(inner) | WhereClause::Union(inner) => {
-                bound_kind_of(variable, inner)
+                bound_kinds_of(variable, inner, out);
+                None
             }
             _ => None,
         };
-        if found.is_some() {
-            return found;
+        if let Some(kind) = found
+            && !out.contains(&kind)
+        {
+            out.push(kind);
         }
     }
-    None
 }
 
 /// Rejects the UPDATEs an engine must never be asked to perform.
 fn guard_update(statement: &UpdateStatement) -> Result<(), &'static str> {
+    guard_update_as(statement, &[])
+}
+
+/// [`guard_update`], for a target the enclosing plan also types: a handle that
+/// `CREATE ASSERTION ?a` claims is an Assertion wherever the plan updates `?a`.
+fn guard_update_as(
+    statement: &UpdateStatement,
+    plan_kinds: &[BoundKind],
+) -> Result<(), &'static str> {
     let target_var = match &statement.target {
         ElementRef::Handle(name) => Some(name.as_str()),
         _ => None,
     };
-    let kind = match (target_var, &statement.where_clauses) {
-        (Some(var), Some(clauses)) => bound_kind_of(var, clauses),
-        _ => None,
-    };
+    let mut kinds: Vec<BoundKind> = plan_kinds.to_vec();
+    if let (Some(var), Some(clauses)) = (target_var, &statement.where_clauses) {
+        bound_kinds_of(var, clauses, &mut kinds);
+    }
 
-    for action in &statement.actions {
-        match action {
-            UpdateAction::SetFields(assignments) => {
-                for (field, _) in assignments {
-                    guard_immutable_field(field, kind)?;
+    for kind in kinds.iter().copied().map(Some) {
+        for action in &statement.actions {
+            match action {
+                UpdateAction::SetFields(assignments) => {
+                    for (field, _) in assignments {
+                        guard_immutable_field(field, kind)?;
+                    }
                 }
+                UpdateAction::SetStructural(_) | UpdateAction::UnsetStructural(_) => {
+                    guard_structural_mutation(kind)?
+                }
+                _ => {}
             }
-            UpdateAction::SetStructural(_) | UpdateAction::UnsetStructural(_) => {
-                guard_structural_mutation(kind)?
-            }
-            _ => {}
         }
     }
 
